@@ -169,6 +169,13 @@ func (s *SkipList[K, V]) Remove(key K) (V, bool) {
 
 // Clear removes all nodes from the skip list.
 func (s *SkipList[K, V]) Clear() {
+	if s.rand == nil {
+		// zero value that was never initialised: a bare reset would leave the
+		// random source nil and the next insert would dereference it.
+		s.Init()
+		return
+	}
+
 	s.head.next = make([]*SkipNode[K, V], maxLevel)
 	s.len = 0
 	s.level = 1
@@ -193,6 +200,11 @@ func (s *SkipList[K, V]) Range(f func(key K, val V) bool) {
 // RangeWithStart traverses the skip list in ascending order starting from the start key.
 // The zone is [start, +∞)
 func (s *SkipList[K, V]) RangeWithStart(start K, f func(key K, val V) bool) {
+	if s.len == 0 {
+		// also covers the zero value, whose head tower is still nil
+		return
+	}
+
 	cur := &s.head
 top:
 	for i := s.level - 1; i >= 0; i-- {
